@@ -358,7 +358,7 @@ def _patterns(n, F):
         ([0] * (n - 1) + [1], [[0] * (n - 1) + [1]] * F),
     ]
     for pm, fm in base:
-        for how in ("masked_array", "nan", "no_data", "no_data=0"):
+        for how in ("masked_array", "list_of_masked_arrays", "nan", "no_data", "no_data=0"):
             if how != "masked_array" and not any(any(r) for r in fm):
                 continue
             pats.append({"pmask": pm, "fmask": [list(r) for r in fm], "how": how})
@@ -381,6 +381,9 @@ def missing(ctx, n, F, pmask, fmask, how):
     kw = {}
     if how == "masked_array":
         fld = np.ma.array(np.array(vals, dtype=object if ctx.mode == "sym" else float), mask=fm)
+    elif how == "list_of_masked_arrays":    # several fields handed over as a python list of masked arrays
+        full = np.array(vals, dtype=object if ctx.mode == "sym" else float)
+        fld = [np.ma.array(full[i], mask=fm[i]) for i in range(F)]
     else:
         fld = np.array(vals, dtype=object if ctx.mode == "sym" else float)
         fld[fm] = np.nan if how == "nan" else NO
@@ -391,13 +394,13 @@ def missing(ctx, n, F, pmask, fmask, how):
             fld[first] = NO + (0.005 if how == "no_data" else 5e-9)
     if pmask is not None:
         kw["mask"] = np.array(pmask, dtype=bool)
-    res = run_ve(ctx, pos, fld if F > 1 else fld[0], e, return_counts=True, **kw)
+    res = run_ve(ctx, pos, fld if (F > 1 or how == "list_of_masked_arrays") else fld[0], e, return_counts=True, **kw)
     # documented semantics: a point is removed iff it is masked by `mask` or masked in ALL fields
     # (masked arrays only; NaN / no_data entries are missing VALUES, the point stays);
     removed = np.zeros(n, dtype=bool)
     if pmask is not None:
         removed |= np.array(pmask, dtype=bool)
-    if how == "masked_array":
+    if how in ("masked_array", "list_of_masked_arrays"):
         removed |= fm.all(axis=0)
     keep = ~removed
     want_pos = np.asarray(pos, dtype=object)[:, keep]
@@ -846,3 +849,10 @@ def separated_lemma(ctx, dim):
     L4 = ctx.lemma("|a1.a2|>T^2", ctx.gt(abs(a1 * a2), T * T), using=[R0, R3])
     ctx.ensure("|u1.u2|>cos(2tol):directions-are-not-separated", ctx.gt(abs(dot), 2 * T * T - 1),
                using=[L3, L4], generalize=[ww, a1 * a2])
+
+
+# --- normalizer given as a class: the preprocessing of one call does not depend on earlier calls (contract text in c18.py)
+from contracts.c18 import normalizer_class_history, NORM_HIST, NORM_HIST_FN, NORM_HIST_B     # noqa: E402
+
+contract(P, "vario_estimate[normalizer-class]/preprocessing-independent-of-earlier-fitted-calls",
+         params=[p for p in NORM_HIST if p["entry"] != "Krige"], functions=NORM_HIST_FN, bounded=NORM_HIST_B)(normalizer_class_history)
